@@ -349,7 +349,18 @@ func (p *Prog) flatten() {
 	for round := 0; round < 3; round++ {
 		unrolled := false
 		for _, f := range tops {
-			if !isHelper(f) && ssa.UnrollTableLoops(f, 8) {
+			if isHelper(f) {
+				continue
+			}
+			did := ssa.UnrollTableLoops(f, 8)
+			if did {
+				ssa.SplitLocalStructs(f)
+				ssa.ForwardStructFields(f)
+			}
+			if ssa.ForwardArrayElems(f) {
+				did = true
+			}
+			if did {
 				unrolled = true
 				p.Unrolled++
 				if "" != os.Getenv("CRS_FLATDEBUG") {
